@@ -35,9 +35,9 @@ import (
 	"strings"
 
 	ledger "github.com/formancehq/ledger/internal"
+	"github.com/formancehq/ledger/internal/api/backend"
 	v1 "github.com/formancehq/ledger/internal/api/v1"
 	v2 "github.com/formancehq/ledger/internal/api/v2"
-	"github.com/formancehq/ledger/internal/api/backend"
 	"github.com/formancehq/ledger/internal/opentelemetry/metrics"
 	"github.com/formancehq/ledger/internal/storage/ledgerstore"
 	sharedapi "github.com/formancehq/stack/libs/go-libs/api"
@@ -77,12 +77,12 @@ type pagRows struct {
 	i    int
 }
 
-func (pagDriver) Open(string) (driver.Conn, error)    { return pagConn{}, nil }
-func (pagConn) Prepare(string) (driver.Stmt, error)   { return nil, fmt.Errorf("pagsql: no prepare") }
-func (pagConn) Close() error                          { return nil }
-func (pagConn) Begin() (driver.Tx, error)             { return nil, fmt.Errorf("pagsql: no tx") }
-func (r *pagRows) Columns() []string                  { return []string{"id", "grp"} }
-func (r *pagRows) Close() error                       { return nil }
+func (pagDriver) Open(string) (driver.Conn, error)  { return pagConn{}, nil }
+func (pagConn) Prepare(string) (driver.Stmt, error) { return nil, fmt.Errorf("pagsql: no prepare") }
+func (pagConn) Close() error                        { return nil }
+func (pagConn) Begin() (driver.Tx, error)           { return nil, fmt.Errorf("pagsql: no tx") }
+func (r *pagRows) Columns() []string                { return []string{"id", "grp"} }
+func (r *pagRows) Close() error                     { return nil }
 func (r *pagRows) Next(dest []driver.Value) error {
 	if r.i >= len(r.data) {
 		return io.EOF
@@ -864,6 +864,18 @@ func genFilter(r *rng, depth int, not bool) any {
 	return J{r.pick(pagKvOps): J{r.pick(pagKeys): genValue(r)}}
 }
 
+// a filter whose JSON text is long (a cursor carries the filter: the token grows with it): many alternatives, or a long value
+func genBigFilter(r *rng) any {
+	if r.p(50) {
+		items := []any{}
+		for i, l := 0, 12+r.n(40); i < l; i++ {
+			items = append(items, J{"$match": J{r.pick([]string{"reference", "account", "metadata[foo]", "address"}): fmt.Sprintf("users:%03d:%s", i, r.pick(pagStrings))}})
+		}
+		return J{r.pick([]string{"$or", "$and"}): items}
+	}
+	return J{"$match": J{r.pick([]string{"metadata[foo]", "reference"}): strings.Repeat(r.pick([]string{"x", "é", "ab:"}), 300+r.n(2000))}}
+}
+
 // something ParseJSON must refuse (or, for the last few, text that is not a JSON object at all)
 func genBadFilterText(r *rng) string {
 	good, _ := json.Marshal(genFilter(r, 1, false))
@@ -985,6 +997,9 @@ func genHTTP(r *rng, size int) J {
 		}
 		if r.p(75) {
 			body := filterText(genFilter(r, 2, true))
+			if r.p(12) {
+				body = filterText(genBigFilter(r))
+			}
 			c["body"], c["filter"] = body, J{"body": body}
 		}
 	} else {
@@ -1104,6 +1119,24 @@ func genPaginate(r *rng, n int, tier string, emit func(J)) {
 			}
 		}
 	}
+	// 1b. collections and page sizes beyond 100 (the v2 maximum; v1 accepts page sizes up to 1000, the library any)
+	for _, size := range []int{101, 102, 137, 205} {
+		ids, grps := genIDs(r, size, false)
+		for _, ps := range []int{50, 100, 101, 102, size - 1, size, size + 1, 200, 1000} {
+			emit(J{"kind": "colwalk", "ids": ids, "grps": grps, "g": nil, "ps": ps, "order": r.pick([]string{"asc", "desc"}), "body": "", "pit": nil})
+			emit(J{"kind": "offwalk", "ids": ids, "grps": grps, "g": nil, "ps": ps, "order": r.pick([]string{"asc", "desc"}), "body": "", "pit": nil})
+		}
+		for _, ep := range []string{"v1tx", "v1acc", "v1logs", "v2tx", "v2acc", "v2logs"} {
+			for _, ps := range []int{100, 101, 150, 1000, 1001} {
+				c := J{"kind": "http", "endpoint": ep, "ids": ids, "grps": grps, "g": nil, "ps": ps, "vol": false, "eff": false, "pit": nil, "filter": nil, "params": J{}}
+				if strings.HasPrefix(ep, "v2") && ep != "v2logs" {
+					c["pit"] = pagTimes[0]
+					c["params"] = J{"pit": pagTimes[0]}
+				}
+				emit(c)
+			}
+		}
+	}
 	// 2. random walks: exotic ids, a WHERE of the caller, a filter and a point in time carried in the cursor
 	randMax := maxSize
 	if tier == "thorough" {
@@ -1178,8 +1211,10 @@ func genPaginate(r *rng, n int, tier string, emit func(J)) {
 		}
 		switch x := r.n(20); {
 		case x < 2:
-		case x < 11:
+		case x < 10:
 			c["filter"] = J{"body": filterText(genFilter(r, 3, true))}
+		case x < 11:
+			c["filter"] = J{"body": filterText(genBigFilter(r))}
 		case x < 13:
 			c["filter"] = J{"body": genBadFilterText(r)}
 		case x < 14:
